@@ -241,8 +241,9 @@ func simGWith(g seqG, sharedSendReg bool) ([]int, string) {
 // ---- generator ----
 
 type seqGen struct {
-	r   *proto.Rand
-	val int
+	r    *proto.Rand
+	val  int
+	bias bool // strict mode: more select statements with several send cases, whose values are received afterwards
 }
 
 func (sg *seqGen) nextVal() int { sg.val += 1 + sg.r.Intn(9); return sg.val }
@@ -272,7 +273,11 @@ func (sg *seqGen) genChans() []sChan {
 func (sg *seqGen) candidate(nch, depth int) sop {
 	r := sg.r
 	ch := r.Intn(nch)
-	switch x := r.Intn(20); {
+	x := r.Intn(20)
+	if sg.bias && r.Intn(2) == 0 {
+		x = 13 // a select
+	}
+	switch {
 	case x < 5:
 		return sop{op: 'S', ch: ch, v: sg.nextVal()}
 	case x < 8:
@@ -289,7 +294,7 @@ func (sg *seqGen) candidate(nch, depth int) sop {
 			// several send cases in one select: the frozen tree keeps ONE value register per class
 			// for all of them (known defect select-send-cases-share-value-register; what it
 			// makes of the program is predicted exactly, see predictSharedSend)
-			if sends < 3 && r.Intn(3) == 0 {
+			if sends < 3 && (r.Intn(3) == 0 || sg.bias && r.Intn(2) == 0) {
 				cs.send, cs.v = true, sg.nextVal()
 				sends++
 			}
@@ -344,10 +349,10 @@ func genSeqG(sg *seqGen) seqG {
 	g.ops = sg.genOps(g.chans, func(ops []sop) []sop { return ops }, n, 0)
 	// end by draining what is ready: a range over every closed channel, a receive from every
 	// channel that still holds a value — so that an operation follows the last loop
-	if sg.r.Intn(2) == 0 {
+	if sg.bias || sg.r.Intn(2) == 0 {
 		for ch := range g.chans {
 			for _, o := range []sop{{op: 'F', ch: ch, form: sg.r.Intn(2)}, {op: 'K', ch: ch, form: sg.r.Intn(2)}, {op: 'R', ch: ch, form: sg.r.Intn(3)}} {
-				if sg.r.Intn(2) == 0 && accept(g.chans, append(append([]sop(nil), g.ops...), o)) {
+				if (sg.bias || sg.r.Intn(2) == 0) && accept(g.chans, append(append([]sop(nil), g.ops...), o)) {
 					g.ops = append(g.ops, o)
 				}
 			}
@@ -643,7 +648,7 @@ func (p *seqProg) program() *program {
 }
 
 func genSeq(r *proto.Rand) *program {
-	sg := &seqGen{r: r}
+	sg := &seqGen{r: r, bias: strictBias}
 	p := &seqProg{mainFirst: r.Intn(2) == 0}
 	for n := 1 + r.Intn(3); n > 0; n-- {
 		p.gs = append(p.gs, genSeqG(sg))
